@@ -63,6 +63,12 @@ Inductive ehandle (A : Type) : Type :=
 | EPhases (fs fl fg : tpfun A).           (* PhaseTPHandle with .s .l .g *)
 Arguments ENone {A}. Arguments ESingle {A} f. Arguments EPhases {A} fs fl fg.
 
+(* what kind of object Chemical._Cn is when _init_energies runs *)
+Inductive cnkind : Type :=
+| CnHandle                 (* a PhaseHandle with .s .l .g; the chemical is not phase-locked *)
+| CnLocked (sp : phase)    (* one model handle; the chemical is locked at phase sp *)
+| CnPlain.                 (* neither (no heat capacity given): H and S end as None *)
+
 Section PyOps.
 Context {A : Type} (O : Ops A).
 
